@@ -11,7 +11,17 @@ SPELLINGS = ["absent", "bare", "true", "1", "false", "0"]
 OVERRIDES = {"bold": "b => b.mb", "italic": "i => i.mi", "underline": "u => u.mu", "strike": "strike => del.ms",
              "allcaps": "all-caps => span.mac", "smallcaps": "small-caps => span.msc", "highlight": "highlight => mark.mh",
              "highlight_yellow": "highlight[color='yellow'] => mark.my"}
+# a second table whose tags collide with the defaults and with each other: same tag, with and without a class, side by side
+OVERRIDES2 = {"bold": "b => em.mb", "italic": "i => strong.mi", "underline": "u => em.mu", "strike": "strike => strong.ms",
+              "allcaps": "all-caps => em.mac", "smallcaps": "small-caps => em", "highlight": "highlight => em.mh",
+              "highlight_yellow": "highlight[color='yellow'] => strong.my"}
 DEFAULTS = {"bold": "strong", "italic": "em", "strike": "s"}
+
+
+def tag_class(table, name):
+    path = table[name].split("=> ")[1]
+    tag, _, cls = path.partition(".")
+    return (tag, cls or None)
 BLOCKS = {"p", "table", "tr", "td", "th", "thead", "tbody", "ol", "ul", "li", "dl", "dt", "dd", "h1", "h2"}
 
 
@@ -39,19 +49,19 @@ def make_run(rng, props, text):
     return X("w:r", {}, ([X("w:rPr", {}, kids)] if kids or rng.random() < 0.3 else []) + [X("w:t", {}, [XT(text)])])
 
 
-def expected_wrappers(props, overrides):
+def expected_wrappers(props, overrides, table=None):
     """multiset of (name, class) the property text prescribes for the run's text"""
+    table = table or OVERRIDES
     out = []
     for name in ("bold", "italic", "strike"):
         if toggle_on(props.get(name, "absent")):
-            out.append((OVERRIDES[name].split("=> ")[1].split(".")[0], "m" + OVERRIDES[name].split(".m")[1]) if name in overrides
-                       else (DEFAULTS[name], None))
+            out.append(tag_class(table, name) if name in overrides else (DEFAULTS[name], None))
     for name in ("allcaps", "smallcaps"):
         if toggle_on(props.get(name, "absent")) and name in overrides:
-            out.append(("span", "m" + OVERRIDES[name].split(".m")[1]))
+            out.append(tag_class(table, name))
     u = props.get("underline", "absent")
     if u not in ("absent", "bare", "false", "0", "none") and "underline" in overrides:
-        out.append(("u", "mu"))
+        out.append(tag_class(table, "underline"))
     va = props.get("valign")
     if va == "superscript":
         out.append(("sup", None))
@@ -61,11 +71,11 @@ def expected_wrappers(props, overrides):
     if hl not in ("absent", "bare", "none", ""):
         if hl == "yellow" and "highlight_yellow" in overrides and (
                 "highlight" not in overrides or overrides.index("highlight_yellow") < overrides.index("highlight")):
-            out.append(("mark", "my"))
+            out.append(tag_class(table, "highlight_yellow"))
         elif "highlight" in overrides:
-            out.append(("mark", "mh"))
+            out.append(tag_class(table, "highlight"))
         elif hl == "yellow" and "highlight_yellow" in overrides:
-            out.append(("mark", "my"))
+            out.append(tag_class(table, "highlight_yellow"))
     return sorted(out, key=repr)
 
 
@@ -115,7 +125,8 @@ def run(ctx):
         rng.shuffle(overrides)
         key = ",".join(sorted(overrides))
         dist["override_sets"][key] = dist["override_sets"].get(key, 0) + 1
-        sm = "\n".join(OVERRIDES[k] for k in overrides) or None
+        table = OVERRIDES2 if i % 3 == 2 else OVERRIDES
+        sm = "\n".join(table[k] for k in overrides) or None
         xml_runs = [make_run(rng, p, "run%dx%d" % (i, j)) for j, p in enumerate(runs)]
         pkg = gen_xml.Package()
         pkg.body = [X("w:p", {}, xml_runs)]
@@ -128,14 +139,14 @@ def run(ctx):
         dist["runs"] += len(runs)
         if len(runs) > 1 and runs[0] == runs[1]:
             dist["neighbours_equal"] += 1
-        meta = {"body": [xml_json(x) for x in pkg.body], "options": opts, "run_properties": runs, "overrides": overrides, "index": i}
+        meta = {"body": [xml_json(x) for x in pkg.body], "options": opts, "run_properties": runs, "overrides": overrides, "colliding_tags": table is OVERRIDES2, "index": i}
         bad = None
         if isinstance(html, Exception):
             bad = "conversion raised %r" % html
         else:
             forest = O.strict_parse(html.value)
             for j, p in enumerate(runs):
-                exp = expected_wrappers(p, overrides)
+                exp = expected_wrappers(p, overrides, table)
                 got = leaf_wrappers(forest, "run%dx%d" % (i, j))
                 if exp:
                     dist["runs_with_formatting"] += 1
@@ -145,7 +156,7 @@ def run(ctx):
         if bad:
             ctx.violation("oracle", bad, dict(meta, api="mammoth.convert_to_html", observed=None if isinstance(html, Exception) else html.value[:600]), True)
         else:
-            if any(expected_wrappers(p, overrides) for p in runs):
+            if any(expected_wrappers(p, overrides, table) for p in runs):
                 ctx.nontrivial(i)
                 ctx.sample({"run_properties": runs, "overrides": overrides, "html": html.value[:240]})
         terms.append(A.case_term(parts, False, {}, opts, html, raw))
@@ -174,7 +185,7 @@ def replay(ctx, rep):
     forest = O.strict_parse(html.value)
     bad = False
     for j, p in enumerate(r["run_properties"]):
-        if leaf_wrappers(forest, "run%dx%d" % (r["index"], j)) != expected_wrappers(p, r["overrides"]):
+        if leaf_wrappers(forest, "run%dx%d" % (r["index"], j)) != expected_wrappers(p, r["overrides"], OVERRIDES2 if r.get("colliding_tags") else OVERRIDES):
             bad = True
     print("replay:", "violated" if bad else "property holds on this input")
     return 1 if bad else 0
